@@ -36,6 +36,8 @@
 Module containing Fortran2008 Error_Stop_Stmt rule R856
 """
 
+import re
+
 from fparser.two.Fortran2003 import Stop_Code
 from fparser.two.utils import StmtBase, WORDClsBase
 
@@ -65,4 +67,6 @@ class Error_Stop_Stmt(StmtBase, WORDClsBase):  # R856
             or NoneType
 
         """
+        # Any amount of white space may separate the two keywords.
+        string = re.sub(r"^\s*ERROR\s+STOP", "ERROR STOP", string, count=1, flags=re.I)
         return WORDClsBase.match("ERROR STOP", Stop_Code, string)
